@@ -24,11 +24,15 @@ META = {
     "ready": True,
     "category": "proof",
     "technique": "Lean 4 invariant proof over a step-level transition system of the safepoint handshake (any number of threads, all interleavings) + forced interleavings of real threads through cfg(steel_verif) yield points + multi-threaded programs with delay injection and an in-core `being scanned` detector",
-    "level_text": "Theorems (lean/SteelVerif/C15/Props.lean; model = C15/Model.lean: N script threads and stopper roles as one transition system, every access to a thread's pause flag, state, published pointer, park token, the threads mutex and the heap mutex one atomic step; stop_threads, enumerate_stacks / call_per_ctx, resume_threads, with_locked_env, enter_safepoint, the dispatch poll, spawn-before-registration and host interrupts modelled as the code has them): scan_exclusive_partial_code - for every number of threads and EVERY interleaving that respects the decidable guard G (rounds do not overlap a spawn or a host interrupt; no stop request reaches a thread between its last exit check and its retraction), a thread whose stack / global table is being inspected or replaced is parked at a safepoint or inside a primitive that published it; env_coherent_partial_code / env_published_partial - when no round is in progress every live thread holds the newest global table. The FULL statements are false for the code as it is, proved from concrete schedules: not_scan_exclusive_code (safepoint exit race, 21 steps, N = 2: finding K15a) and not_env_coherent_code (a thread spawned during a round keeps the old table: K15b). NOT a theorem: that the Rust code follows the model. That is the correspondence run: the interleavings of the witnesses and of generated variants are FORCED on real threads through yield-point hooks (the exit race reproduces deterministically: the dispatch loop records that it runs while its thread is being scanned; with the JIT the thread indexes the swapped, empty table and the process aborts), and generated multi-threaded programs run with delay injection under the in-core detector.",
+    "level_text": "Theorems (lean/SteelVerif/C15/Props.lean; model = C15/Model.lean: N script threads and stopper roles as one transition system, every access to a thread's pause flag, state, published pointer, park token, the threads mutex and the heap mutex one atomic step; stop_threads, enumerate_stacks / call_per_ctx, resume_threads, with_locked_env, enter_safepoint, the dispatch poll, spawn-before-registration and host interrupts modelled as the code has them): scan_exclusive_partial_code - for every number of threads and EVERY interleaving that respects the decidable guard G (rounds do not overlap a spawn or a host interrupt; no stop request reaches a thread between its last exit check and its retraction), a thread whose stack / global table is being inspected or replaced is parked at a safepoint or inside a primitive that published it; env_coherent_partial_code / env_published_partial - when no round is in progress every live thread holds the newest global table. For the current code (heap-lock guard kept during with_locked_env) the guard's clause 'rounds do not overlap each other' is implied: C16/Props.lean scan_exclusive_fixed / env_coherent_fixed state both theorems under the weaker guard GFix. The FULL statements are false for the code as it is, proved from concrete schedules: not_scan_exclusive_code (safepoint exit race, 21 steps, N = 2: finding K15a) and not_env_coherent_code (a thread spawned during a round keeps the old table: K15b). NOT a theorem: that the Rust code follows the model. That is the correspondence run: the interleavings of the witnesses and of generated variants are FORCED on real threads through yield-point hooks (the exit race reproduces deterministically: the dispatch loop records that it runs while its thread is being scanned; with the JIT the thread indexes the swapped, empty table and the process aborts), and generated multi-threaded programs run with delay injection under the in-core detector.",
     "level_note": "Trusted: Lean kernel (axioms propext, Classical.choice, Quot.sound), harnesses c15 / c16 and the yield-point hooks (add-only, cfg(steel_verif)), the python classification. Modelled, not verified: sequentially consistent atomics (the code loads `paused` Relaxed; a store-buffer delay only widens the window the guard already excludes), spurious park wake-ups are modelled, OS fairness is not assumed; thread list order = spawn order; the JIT's native code is 'runs until the next helper call'. The `being scanned` detector is read at instruction dispatch only, so in the interpreter a thread that escapes through an enter_safepoint exit re-parks at its next poll before the detector fires (the forced poll-exit schedule and the JIT abort are the observable forms).",
 }
 
+# a thread looked a global up in the empty table installed by another thread's with_locked_env: before /repo 4b9c5de8 native
+# code indexed the empty vector (panic); since then the JIT helpers' unchecked lookup yields void, reported as an application
+# of a non-procedure (none of the programs below applies void or refers to an undefined name by itself)
 ABORT_K15A = re.compile(r"index out of bounds: the len is 0")
+VOID_K15A = re.compile(r"Function.application.not.a.procedure.or.function.type.not.supported:.#<void>|Cannot.reference.an.identifier.before.its.definition")
 _SEEN = set()
 
 
@@ -121,7 +125,7 @@ def judge_forced(ctx, name, text, jit, kv, known, stats):
         if is_race_class(text):
             stats["race_class_silent"] += 1
         return
-    if is_race_class(text) and "K15a" in known and (scanviol > 0 or ABORT_K15A.search(kv["stderr"]) or panics > 0):
+    if is_race_class(text) and "K15a" in known and (scanviol > 0 or ABORT_K15A.search(kv["stderr"]) or panics > 0 or VOID_K15A.search(kv.get("outcome", ""))):
         stats["k15a_forced"] += 1
         kf(ctx, "K15a", "id=K15a class=stop_request_while_thread_leaves_safepoint replay=%s (forced schedule %s, jit=%s: %s)"
            % (known["K15a"]["replay"], name, jit,
@@ -193,7 +197,7 @@ def run_program(name, expected, prog, jit, bound, jitter):
 def empty_table_symptom(kv):
     """A thread looked a global up in the empty table installed by another thread's with_locked_env: native code indexes it
     (panic `index out of bounds: the len is 0`), the interpreter reports a defined global as a free identifier."""
-    return bool(ABORT_K15A.search(kv["stderr"])) or "free_identifier" in kv.get("outcome", "")
+    return bool(ABORT_K15A.search(kv["stderr"])) or "free_identifier" in kv.get("outcome", "") or bool(VOID_K15A.search(kv.get("outcome", "")))
 
 
 def judge_program(ctx, name, exp, prog, classes, jit, jitter, kv, known, stats):
